@@ -48,7 +48,7 @@ pub enum CanonError {
     /// Generic decode error with detail.
     #[error("decode error: {0}")]
     Decode(String),
-    /// Arrays/maps nested deeper than [`MAX_DECODE_NESTING_DEPTH`].
+    /// Arrays/maps nested deeper than [`MAX_DECODE_NESTING_DEPTH`] (decoder and encoder).
     #[error("nesting depth limit exceeded")]
     NestingLimitExceeded,
     /// Generic encode error with detail.
@@ -58,18 +58,19 @@ pub enum CanonError {
 
 type Result<T> = result::Result<T, CanonError>;
 
-/// Maximum container nesting depth accepted by [`decode_value`].
+/// Maximum container nesting depth accepted by [`decode_value`] and [`encode_value`].
 ///
 /// The root value is at depth zero. A scalar wrapped in exactly this many
 /// arrays/maps is accepted; one additional container is rejected with
 /// [`CanonError::NestingLimitExceeded`] instead of recursing without bound on
-/// untrusted input.
+/// untrusted input. The encoder applies the same limit, so it never produces
+/// bytes the decoder would refuse to read back.
 pub const MAX_DECODE_NESTING_DEPTH: usize = 128;
 
 /// Encode a `ciborium::value::Value` to deterministic CBOR bytes.
 pub fn encode_value(val: &Value) -> Result<Vec<u8>> {
     let mut out = Vec::new();
-    enc_value(val, &mut out)?;
+    enc_value(val, &mut out, 0)?;
     Ok(out)
 }
 
@@ -87,7 +88,7 @@ pub fn decode_value(bytes: &[u8]) -> Result<Value> {
     Ok(v)
 }
 
-fn enc_value(v: &Value, out: &mut Vec<u8>) -> Result<()> {
+fn enc_value(v: &Value, out: &mut Vec<u8>, depth: usize) -> Result<()> {
     match v {
         Value::Bool(b) => {
             out.push(if *b { 0xf5 } else { 0xf4 });
@@ -104,16 +105,23 @@ fn enc_value(v: &Value, out: &mut Vec<u8>) -> Result<()> {
         Value::Text(s) => enc_text(s, out)?,
         Value::Bytes(b) => enc_bytes(b, out)?,
         Value::Array(items) => {
+            // The decoder limits nesting; refuse what it would not read back.
+            if depth >= MAX_DECODE_NESTING_DEPTH {
+                return Err(CanonError::NestingLimitExceeded);
+            }
             enc_len(4, items.len() as u64, out);
             for it in items {
-                enc_value(it, out)?;
+                enc_value(it, out, depth + 1)?;
             }
         }
         Value::Map(entries) => {
+            if depth >= MAX_DECODE_NESTING_DEPTH {
+                return Err(CanonError::NestingLimitExceeded);
+            }
             let mut buf: Vec<(Value, Value, Vec<u8>)> = Vec::with_capacity(entries.len());
             for (k, v) in entries {
                 let mut kb = Vec::new();
-                enc_value(k, &mut kb)?;
+                enc_value(k, &mut kb, depth + 1)?;
                 buf.push((k.clone(), v.clone(), kb));
             }
 
@@ -128,7 +136,7 @@ fn enc_value(v: &Value, out: &mut Vec<u8>) -> Result<()> {
             enc_len(5, buf.len() as u64, out);
             for (_k, v, kb) in buf {
                 out.extend_from_slice(&kb);
-                enc_value(&v, out)?;
+                enc_value(&v, out, depth + 1)?;
             }
         }
         Value::Tag(_, _) => return Err(CanonError::Tag),
